@@ -21,6 +21,15 @@ Check c13_printed_name_is_wire_name : forall i nm,
   vehicle_display i = Some nm -> vehicle_write (Builtin i) = Ok (nm ++ [0]).
 Check c13_roundtrip_on_reachable : forall bs v,
   allbytes bs -> vehicle_read bs = Ok v -> exists w, vehicle_write v = Ok w /\ vehicle_read w = Ok v.
+Check c13_decode_injective : forall bs1 bs2 v,
+  allbytes bs1 -> allbytes bs2 -> vehicle_read bs1 = Ok v -> vehicle_read bs2 = Ok v -> bs1 = bs2.
+Check c13_encode_injective_on_reachable : forall bs1 bs2 v1 v2,
+  allbytes bs1 -> allbytes bs2 -> vehicle_read bs1 = Ok v1 -> vehicle_read bs2 = Ok v2 ->
+  vehicle_write v1 = vehicle_write v2 -> v1 = v2.
+Check c13_encode_collides_only_off_reachable : forall i nm,
+  vehicle_display i = Some nm ->
+  vehicle_write (Mod (le_dec (nm ++ [0]))) = vehicle_write (Builtin i) /\
+  forall bs, allbytes bs -> vehicle_read bs <> Ok (Mod (le_dec (nm ++ [0]))).
 Check c13_builtin_set_is_lfs : same_car_set = true /\ forallb tab_entry_ok vehicle_display_tab = true
                                   /\ nodup_keys vehicle_display_tab = true.
 Print Assumptions c13_read_is_v9_rule.
@@ -32,4 +41,7 @@ Print Assumptions c13_builtin_iff_named.
 Print Assumptions c13_classification_follows_the_bytes.
 Print Assumptions c13_printed_name_is_wire_name.
 Print Assumptions c13_roundtrip_on_reachable.
+Print Assumptions c13_decode_injective.
+Print Assumptions c13_encode_injective_on_reachable.
+Print Assumptions c13_encode_collides_only_off_reachable.
 Print Assumptions c13_builtin_set_is_lfs.
